@@ -225,6 +225,9 @@ class Engine:
         if g is not None:
             cond = z3.Implies(g, cond if not isinstance(cond, bool) else z3.BoolVal(cond))
         if isinstance(cond, bool):
+            if not cond and self.batch and not now:
+                self.pending.append((label, z3.BoolVal(False)))     # decided with the other obligations of the path
+                return
             if not cond:
                 r = self._check()
                 if r == z3.sat:
@@ -1481,6 +1484,8 @@ class NPShim:
 
     def full(self, shape, val, dtype=None):
         a = self.zeros(shape, dtype)
+        if dtype is not None:
+            val = a._store_check(val)       # a fill value outside the dtype wraps silently in compiled code
         a.cells[:] = [val] * len(a.cells)
         return a
 
